@@ -77,18 +77,29 @@ def _translate_and_selfcheck(ctx, props_file):
         return None, None
     from lib import impl
     t0 = time.time()
-    cases, nontrivial, mism, samples = S.selfcheck_kernels(ir, impl.cpu_ops, ctx.rng, ctx.quick)
+    try:
+        cases, nontrivial, mism, samples = S.selfcheck_kernels(ir, impl.cpu_ops, ctx.rng, ctx.quick)
+    except Exception as ex:          # a kernel whose calling convention changed: the tie is broken, the oracle still runs
+        import traceback
+        cases, nontrivial, samples = 1, 0, []
+        mism = [{"error": "self-check could not run the kernels as translated: %r" % ex, "traceback": traceback.format_exc()[-600:]}]
     ctx.tie("veckernels/kernels-vs-IR", "translator-selfcheck", cases, nontrivial, mism,
             note="IR evaluated by an independent pure-Python evaluator on every fibre (np.moveaxis) of random arrays of rank 1-4, "
                  "reduction axis in every position incl. negative; rows for nll/cross-entropy; channels for batch-norm in all "
                  "32 (training, gamma, beta, running_mean, running_var) modes; tolerance 1e-12 relative (summation order); %.1fs" % (time.time() - t0))
     for s in samples:
         ctx.sample(s)
-    wc, wm = S.selfcheck_wiring(w, impl, ctx.rng)
+    try:
+        wc, wm = S.selfcheck_wiring(w, impl, ctx.rng)
+    except Exception as ex:
+        wc, wm = 1, [{"error": "wiring self-check raised %r" % ex}]
     ctx.tie("veckernels/wrapper-wiring", "translator-selfcheck", wc, wc, wm,
             note="nn/functional wrappers run on real Tensors with a recording backward kernel: identity of the arrays handed over "
                  "(input vs output vs saved statistics) and which kernel result each input's .grad receives")
-    lc, lm = S.selfcheck_losses(ir, w, impl, ctx.rng)
+    try:
+        lc, lm = S.selfcheck_losses(ir, w, impl, ctx.rng)
+    except Exception as ex:
+        lc, lm = 1, [{"error": "loss-reduction self-check raised %r" % ex}]
     ctx.tie("veckernels/loss-reductions", "translator-selfcheck", lc, lc, lm,
             note="nn.NLLLoss / nn.CrossEntropyLoss x {sum, mean, none} on real Tensors vs per-row IR value + the reduction "
                  "translated from Loss.__call__ (nn/losses.py)")
@@ -98,7 +109,7 @@ def _translate_and_selfcheck(ctx, props_file):
 
 # ------------------------------------------------------------------------------------------------------
 # C14 oracle: both sides of the documented identities through real Tensors
-def _c14_ce(x, y, red, g):
+def _c14_ce(x, y, red, g, repeat=1):
     """cross-entropy (fused) vs NLLLoss(log_softmax): returns None or (expected, observed, note)"""
     from lib import impl
     import numpy as np
@@ -108,7 +119,8 @@ def _c14_ce(x, y, red, g):
         a = sg.Tensor(x.copy(), requires_grad=True); la = nn.CrossEntropyLoss(reduction=red)(a, sg.Tensor(y.copy()))
         b = sg.Tensor(x.copy(), requires_grad=True); lb = nn.NLLLoss(reduction=red)(NF.log_softmax(b, 1), sg.Tensor(y.copy()))
         g = np.array(g, dtype=np.float64).reshape(np.shape(la.data))
-        la.backward(sg.Tensor(g.copy())); lb.backward(sg.Tensor(g.copy()))
+        for _k in range(repeat):      # the same graphs back-propagated `repeat` times: both sides accumulate repeat x the gradient
+            la.backward(sg.Tensor(g.copy())); lb.backward(sg.Tensor(g.copy()))
         va, vb, ga, gb = np.array(la.data), np.array(lb.data), a.grad.data, b.grad.data
     except Exception as ex:
         return "both sides accepted", repr(ex), "one side raises"
@@ -119,7 +131,7 @@ def _c14_ce(x, y, red, g):
     return None
 
 
-def _c14_ls(z, dim, g):
+def _c14_ls(z, dim, g, repeat=1):
     """log_softmax vs log(softmax): the library's log adds epsilon, so 0 <= log(softmax) - log_softmax <= epsilon/p"""
     from lib import impl
     import numpy as np
@@ -129,7 +141,8 @@ def _c14_ls(z, dim, g):
     try:
         a = sg.Tensor(z.copy(), requires_grad=True); la = NF.log_softmax(a, dim)
         b = sg.Tensor(z.copy(), requires_grad=True); sb = NF.softmax(b, dim); lb = sb.log()
-        la.backward(sg.Tensor(g.copy())); lb.backward(sg.Tensor(g.copy()))
+        for _k in range(repeat):
+            la.backward(sg.Tensor(g.copy())); lb.backward(sg.Tensor(g.copy()))
     except Exception as ex:
         return "both sides accepted", repr(ex), "one side raises"
     p = np.array(sb.data)
@@ -163,20 +176,24 @@ def oracle_c14(ctx):
         for red in ("mean", "sum", "none"):
             n_cases += 1
             g = (rs.standard_normal((N, 1)) + 2.0) if red == "none" else (rs.standard_normal(()) + 2.0)
-            v = _c14_ce(x, y, red, g)
-            if v:
-                report("nn.CrossEntropyLoss vs NLLLoss(log_softmax)", "reduction=%s" % red,
-                       {"identity": "ce", "x": x.tolist(), "y": y.tolist(), "reduction": red, "g": np.array(g).tolist()}, v)
+            for rep in (1, 2 + (k % 2)):
+                n_cases += rep > 1
+                v = _c14_ce(x, y, red, g, rep)
+                if v:
+                    report("nn.CrossEntropyLoss vs NLLLoss(log_softmax)", "reduction=%s%s" % (red, " backward-x%d" % rep if rep > 1 else ""),
+                           {"identity": "ce", "x": x.tolist(), "y": y.tolist(), "reduction": red, "g": np.array(g).tolist(), "repeat": rep}, v)
         rank = int(rs.randint(1, 4))
         shape = tuple(int(rs.randint(1, 5)) for _ in range(rank))
         z = rs.standard_normal(shape) * float(rs.choice([0.5, 2.0, 5.0]))
         for dim in range(-rank, rank):
             n_cases += 1
             g = rs.standard_normal(shape)
-            v = _c14_ls(z, dim, g)
-            if v:
-                report("log_softmax vs log(softmax)", "dim=%d rank=%d" % (dim, rank),
-                       {"identity": "ls", "x": z.tolist(), "dim": dim, "g": g.tolist()}, v)
+            for rep in (1, 2 + (k % 2)):
+                n_cases += rep > 1
+                v = _c14_ls(z, dim, g, rep)
+                if v:
+                    report("log_softmax vs log(softmax)", "dim=%d rank=%d%s" % (dim, rank, " backward-x%d" % rep if rep > 1 else ""),
+                           {"identity": "ls", "x": z.tolist(), "dim": dim, "g": g.tolist(), "repeat": rep}, v)
     res = {"cases": n_cases, "witnesses": witnesses}
     ctx.extra["oracle_c14_vector"] = res
     return res
@@ -461,7 +478,8 @@ def replay_part(ctx, data):
         print("still fails:" if v else "passes now:", json.dumps(v, default=str)[:600])
         return 1 if v else 0
     if inp.get("oracle") == "c14":
-        v = _c14_ce(inp["x"], inp["y"], inp["reduction"], inp["g"]) if inp.get("identity") == "ce" else _c14_ls(inp["x"], inp["dim"], inp["g"])
+        rep = int(inp.get("repeat", 1))
+        v = _c14_ce(inp["x"], inp["y"], inp["reduction"], inp["g"], rep) if inp.get("identity") == "ce" else _c14_ls(inp["x"], inp["dim"], inp["g"], rep)
         print("still fails:" if v else "passes now:", json.dumps(v, default=str)[:600])
         return 1 if v else 0
     from checks import kv_oracle
